@@ -170,7 +170,11 @@ func (e *c10Env) newMessage() *commitlog.Message {
 func (e *c10Env) keyFor(seq int) []byte {
 	switch e.shape.Kind {
 	case "compacted", "both":
-		// never the empty key (that corner belongs to C08)
+		// never the empty key (that corner belongs to C08); half of the
+		// messages get a key that is never written again (they survive)
+		if e.rng.Bool() {
+			return []byte(fmt.Sprintf("u%d", seq))
+		}
 		return []byte(fmt.Sprintf("k%d", e.rng.Intn(e.shape.Keys)))
 	}
 	if seq%3 == 0 {
@@ -223,24 +227,10 @@ func (e *c10Env) publishAPI() error {
 	return nil
 }
 
-func (e *c10Env) logFiles() int {
-	ents, err := os.ReadDir(e.dir)
-	if err != nil {
-		return -1
-	}
-	n := 0
-	for _, f := range ents {
-		if strings.HasSuffix(f.Name(), ".log") {
-			n++
-		}
-	}
-	return n
-}
-
 // waitRolled waits (logical condition) until the background cleaner has rolled
 // the full active segment, i.e. the last segment file is empty.
 func (e *c10Env) waitRolled() bool {
-	return vfWait(5*time.Second, func() bool {
+	return vfWait(3*time.Second, func() bool {
 		st, err := e.state()
 		if err != nil || len(st.Bases) == 0 {
 			return false
@@ -482,10 +472,6 @@ func (st *c10State) betweenTS(rng *kit.RNG, pred func(i int) bool) (int64, bool)
 		return 0, false
 	}
 	return st.All[cand[rng.Intn(len(cand))]].TS + 5, true
-}
-
-func (st *c10State) lastNonEmptySegIsLast() bool {
-	return len(st.All) > 0 && len(st.Bases) > 0 && st.segOf(st.Newest) == st.Bases[len(st.Bases)-1]
 }
 
 // resolveTS maps a timestamp class to a concrete timestamp on this log.
@@ -872,3 +858,69 @@ func c10Mark(key string) {
 }
 
 var _ = codes.OK
+
+// ---------------------------------------------------------------- attribution
+
+// The probes below call the implementation's own lookup functions.  They are
+// used ONLY to name the cause in a fingerprint (so that one defect maps to one
+// fingerprint) and to stop re-running requests of a cause that was already
+// recorded several times; the verdict itself never depends on them.
+
+func (st *c10State) emptyActive() bool {
+	return len(st.All) > 0 && len(st.Bases) > 0 && st.Bases[len(st.Bases)-1] > st.Newest
+}
+
+func (e *c10Env) causeForward(st *c10State, s c10Start, t c10Stop, w c10Want) string {
+	l := e.p.log
+	if s.Pos == client.StartPosition_TIMESTAMP {
+		got, err := l.EarliestOffsetAfterTimestamp(s.TS)
+		if got < 0 {
+			got = 0
+		}
+		if err != nil || got != w.SReq {
+			switch {
+			case st.emptyActive():
+				return "start-timestamp-lookup:empty-active-segment"
+			case st.has(w.SReq) && len(st.Bases) > 1 && st.segOf(w.SReq) == st.Bases[len(st.Bases)-1] && (st.idx[w.SReq] == 0 || st.segOf(st.All[st.idx[w.SReq]-1].Off) != st.segOf(w.SReq)):
+				return "start-timestamp-lookup:boundary-before-last-segment"
+			}
+			return "start-timestamp-lookup:" + s.Class
+		}
+	}
+	implStop, resolved := int64(0), false
+	switch t.Pos {
+	case client.StopPosition_STOP_OFFSET:
+		implStop, resolved = t.Off, true
+	case client.StopPosition_STOP_TIMESTAMP:
+		got, err := l.LatestOffsetBeforeTimestamp(t.TS)
+		if err != nil {
+			if w.HasBound && st.has(w.Bound) {
+				if st.emptyActive() {
+					return "stop-timestamp-lookup:empty-active-segment"
+				}
+				return "stop-timestamp-lookup:" + t.Class
+			}
+			return ""
+		}
+		implStop, resolved = got, true
+	}
+	if resolved && !st.has(implStop) && implStop <= st.Newest && implStop >= 0 {
+		return "overshoot:stop-offset-not-retained:" + t.Class
+	}
+	if resolved && t.Pos == client.StopPosition_STOP_TIMESTAMP && w.HasBound && implStop != w.Bound {
+		return "stop-timestamp-lookup:" + t.Class
+	}
+	return ""
+}
+
+func (e *c10Env) causeReverse(st *c10State, s c10Start, t c10Stop, sReq, upper int64) string {
+	if st.sparseStart(upper) {
+		return "sparse-start-segment"
+	}
+	if st.Readonly && t.Pos == client.StopPosition_STOP_ON_CANCEL && sReq >= st.Newest && st.Newest >= 0 {
+		return "readonly-stop-at-newest"
+	}
+	return ""
+}
+
+const c10CauseCap = 4
